@@ -13,6 +13,7 @@ from checks import scenarios as S
 PROP = "C03"
 LEVEL = "proof"
 THEOREMS = {"Proofs.Props.C03": ["MsPack.Chm.C03_encint_roundtrip"],
+            "Proofs.Props.C07Chm": ["MsPack.Chm.C03_chm_sec0_bytes", "MsPack.Chm.C07_chm_open_extract_sec0"],
             "Proofs.Props.C03Headers": ["MsPack.Chm.C03_headers_roundtrip", "MsPack.Chm.C03_open_roundtrip", "MsPack.Chm.C03_headers_roundtrip_files"]}
 ASSUMPTIONS = ["the listing round trip (C03_headers_roundtrip: ITSF/ITSP headers and any number of PMGL chunks without index chunks, system files or non-minimal ENCINTs) and ENCINT are theorems; index chunks, system files, section-1 (LZX) content are covered by model/implementation agreement and by the plan oracle; the specification's writer is fed to the real chmd_open (`prim encchm`, family chm.spec-headers)",
                "CHM with E8 translation beyond the first reset interval is a known finding (D12) and is generated only in the directed family"]
